@@ -463,7 +463,8 @@ fn read_back(data: &[u8]) -> Result<Readback, String> {
 
 // ---------------------------------------------------------------- e2e
 
-pub fn e2e_run(p: &[&str]) -> String {
+/// the font of an `e2e` case (its tables) and the user coordinates
+pub fn e2e_font(p: &[&str]) -> (Vec<(u32, Vec<u8>)>, Vec<Fixed>) {
     let ac: usize = p[1].parse().unwrap();
     let user = csv_i::<i64>(p[2]);
     let shared: Vec<Vec<i16>> = if p[3] == "-" { vec![] } else { p[3].split(';').map(|x| csv_i::<i16>(x)).collect() };
@@ -548,8 +549,19 @@ pub fn e2e_run(p: &[&str]) -> String {
             tables.push((t(b"vmtx"), vmtx));
         }
     }
-    let prov = Prov(tables);
     let user_fixed: Vec<Fixed> = user.iter().map(|k| Fixed::from_raw((*k as i32) * 4)).collect();
+    (tables, user_fixed)
+}
+
+/// the instance `variations::instance` writes for an `e2e` case, if it succeeds
+pub fn e2e_instance_bytes(p: &[&str]) -> Option<Vec<u8>> {
+    let (tables, user_fixed) = e2e_font(p);
+    instance(&Prov(tables), &user_fixed).ok().map(|(data, _)| data)
+}
+
+pub fn e2e_run(p: &[&str]) -> String {
+    let (tables, user_fixed) = e2e_font(p);
+    let prov = Prov(tables);
     match instance(&prov, &user_fixed) {
         Err(e) => verr(e),
         Ok((data, tuple)) => {
